@@ -375,7 +375,7 @@ fn direct_sequence(seed: u64, nops: usize, st: &mut Stats) -> Option<(String, St
         let i = rng.below(nodes.len());
         let target = nodes[i].clone();
         let container = matches!(kind_of(&tee, &target), Kind::Element { .. });
-        match rng.below(12) {
+        match rng.below(if select_flavour { 15 } else { 12 }) {
             0 | 1 | 2 if container => {
                 let c = if rng.chance(1, 4) { TH(tee.rc.create_comment("c".into()), tee.m.create_comment("c".into())) } else { mk(&tee, &mut rng) };
                 log.push(format!("#{opno} append(n{}, new n{})", target.1.id, c.1.id));
@@ -445,7 +445,7 @@ fn direct_sequence(seed: u64, nops: usize, st: &mut Stats) -> Option<(String, St
                     st.count("direct:append-detached");
                 }
             },
-            11 if select_flavour => {
+            11 | 12 if select_flavour => {
                 // mirror some option (not necessarily the target) into its select's selectedcontent
                 let opts: Vec<TH> = nodes.iter().filter(|n| tee.m.describe(n.1.id).starts_with("<option>")).cloned().collect();
                 if !opts.is_empty() {
